@@ -21,6 +21,11 @@ class Unsupported(Exception):
     """program (or construct) outside RefSem's subset: never a verdict"""
 
 
+class TypeMismatch(Exception):
+    """the program returns a value of another documented type than declared (same bit size or not):
+    under the fixed-width types this is a type error the library must reject"""
+
+
 class Undef(Exception):
     """python itself raises on every input (static out-of-range index etc.)"""
 
@@ -569,12 +574,15 @@ class Interp:
             # coerce actuals to the callee's declared formal types (width) like a typed call
             sub = Interp(fd, s.funs, s.B)
             cargs = []
-            for a, fa in zip(args, fd.args.args):
-                cargs.append(s.coerce(a, parse_type(fa.annotation)))
-            r = sub.call(cargs)
-            s.maxhi = max(s.maxhi, sub.maxhi)
-            s.undef = z3.Or(s.undef, sub.undef)
-            return s.coerce(r, parse_type(fd.returns))
+            try:
+                for a, fa in zip(args, fd.args.args):
+                    cargs.append(s.coerce(a, parse_type(fa.annotation)))
+                r = sub.call(cargs)
+                s.maxhi = max(s.maxhi, sub.maxhi)
+                s.undef = z3.Or(s.undef, sub.undef)
+                return s.coerce(r, parse_type(fd.returns))
+            except TypeMismatch as e:
+                raise Unsupported("type mismatch at a call: %s" % e)
         if f == "len":
             if len(args) != 1 or not isinstance(args[0], tuple):
                 raise Unsupported("len")
@@ -647,10 +655,14 @@ class Interp:
             raise Unsupported("coerce to bool")
         if t[0] in ("int", "char"):
             W = width(t)
+            if isinstance(v, VF) and v.const is None:
+                raise TypeMismatch("fixed point value where %s is declared" % t[0])
             if not isinstance(v, VI):
                 raise Unsupported("coerce to int")
             want_kind = "char" if t[0] == "char" else "int"
             if v.kind != want_kind:
+                if v.const is None:
+                    raise TypeMismatch("%s value where %s is declared" % (v.kind, t[0]))
                 raise Unsupported("char/int coercion")
             okf = z3.And(v.ok, s.inrange(v.v, W))
             return VI(v.v, W, okf, min(v.lw, W), v.hi, kind=v.kind, const=v.const if (v.const is not None and v.const < 2 ** W) else None, okl=v.okl)
@@ -661,6 +673,8 @@ class Interp:
                         raise Unsupported("fixed format coercion")
                     v = s.fix_align(v, VF(s.bv(0), t[1], t[2]))[0]
                 return v
+            if isinstance(v, VI) and v.const is None:
+                raise TypeMismatch("%s value where Qfixed is declared" % v.kind)
             raise Unsupported("coerce to fixed")
         if t[0] == "tuple":
             if not isinstance(v, tuple) or len(v) != len(t[1]):
@@ -739,7 +753,7 @@ def reference(src_or_fdef, funs=None, param_values=None):
         names = iter(argbits)
         args = [it.mkarg(t, names) for t in argt]
         rv = it.call(args)
-        rv = it.coerce(rv, rett)
+        rv = it.coerce(rv, rett)  # may raise TypeMismatch
         return it, flatten_val(it, rv, rett)
 
     it, _ = run(64)
